@@ -5,6 +5,7 @@ import (
 	"go/ast"
 	"go/constant"
 	"go/types"
+	"os"
 	"sort"
 	"strings"
 
@@ -231,7 +232,7 @@ func C18(c *Ctx) {
 		"decided per module: section prefixes are distinct single constant bytes initialised by composite literals and never written; every store access in module code uses a key whose first segment is such a prefix (so sections cannot alias); " +
 		"each builder is injective (all segments fixed-width or length-prefixed, at most a trailing Raw); integers are big-endian (byte order = numeric order); iteration prefixes end on a segment boundary of the builders of their section; " +
 		"the stream-key parsers read exactly the offsets the builder writes and return (receiver, sender) in builder order; query callbacks re-prefix with the section they iterate. Covers all identifier/height/address values because the layout, not sampled values, is analysed."
-	r.Rules = []string{"A11.prefix-distinct", "A11.prefix-immutable", "A12.item-identity", "A11.iter-end-bound", "A11.section-resolved", "A11.injective", "A11.big-endian", "A11.iter-prefix", "A11.iter-confined", "A11.parser", "A11.reprefix", "A11.append-alias"}
+	r.Rules = []string{"A11.prefix-distinct", "A11.prefix-immutable", "A12.item-identity", "A11.iter-end-bound", "A11.section-resolved", "A11.injective", "A11.big-endian", "A11.iter-prefix", "A11.iter-confined", "A11.parser", "A11.reprefix", "A11.append-alias", "A11.listing-order", "A6.persistent-store"}
 	appendAlias(c)
 	r.Trusted = []string{"address.MustLengthPrefix emits one length byte + payload and panics above 255 bytes", "sdk.KVStorePrefixIterator / prefix.Store semantics", "binary.BigEndian.PutUint64"}
 	r.NotDecided = []string{"behaviour of the IAVL store itself"}
@@ -508,7 +509,10 @@ func C18(c *Ctx) {
 	}
 	r.Analysed["iterations_on_consensus_paths_judged_for_confinement"] = nConf
 
+	// entities of different modules never alias: every keeper works on its own module's store key
+	persistentStores(c)
 	streamParsers(c, builders)
+	r.Floor("collectors of stored entities judged for the order of their list", listingOrder(c), 5)
 }
 
 func kindsEqual(a, b []Seg) bool {
@@ -1117,4 +1121,297 @@ func boundUsersIterateShape(c *Ctx, f *ssa.Function, site ssa.Instruction, want 
 		}
 	}
 	return users > 0
+}
+
+// listingOrder is rule A11.listing-order: a function that collects the entities of a section into a list hands them back in
+// ascending key order. The store iterates in key order and the keys are big-endian (A11.big-endian), so the order of the
+// list is decided by two things the collector chooses: the direction it iterates in and the end of the list it adds to. A
+// forward walk that appends and a reverse walk that prepends (the capped exports: newest first, put in front) both give an
+// ascending list; the two mixed forms give a descending one — whose first element genesis export then records as the
+// oldest retained record, so that after an import the pruning deletes the newest record instead of the oldest.
+// Returns the number of collectors judged.
+func listingOrder(c *Ctx) int {
+	w, r := c.W, c.R
+	n := 0
+	iterDir := func(g *ssa.Function) string {
+		fwd, rev := false, false
+		for h := range w.Reachable([]*ssa.Function{g}) {
+			for _, e := range w.EffectsOf(h) {
+				if e.Kind != "StoreIter" {
+					continue
+				}
+				if strings.Contains(e.Method, "Reverse") {
+					rev = true
+				} else {
+					fwd = true
+				}
+			}
+		}
+		switch {
+		case fwd && !rev:
+			return "forward"
+		case rev && !fwd:
+			return "reverse"
+		}
+		return ""
+	}
+	// how a stored slice value extends the list `isList` recognises: "append", "prepend" or ""
+	var addMode func(v ssa.Value, isList func(ssa.Value) bool) string
+	addMode = func(v ssa.Value, isList func(ssa.Value) bool) string {
+		call, ok := v.(*ssa.Call)
+		if !ok {
+			return ""
+		}
+		args := call.Common().Args
+		if b, ok := call.Common().Value.(*ssa.Builtin); ok && b.Name() == "append" && len(args) == 2 {
+			switch {
+			case isList(args[0]):
+				return "append"
+			case isList(args[1]) || resliceOf(args[1], isList):
+				return "prepend"
+			}
+			return ""
+		}
+		h := call.Common().StaticCallee()
+		if h == nil || len(h.Blocks) == 0 || len(h.Params) != 2 || len(args) != 2 || !isList(args[0]) {
+			return ""
+		}
+		// a helper (list, element) -> list
+		copies, front := false, false
+		back := false
+		for _, b := range h.Blocks {
+			for _, in := range b.Instrs {
+				switch x := in.(type) {
+				case *ssa.Call:
+					if bi, ok := x.Common().Value.(*ssa.Builtin); ok && bi.Name() == "copy" {
+						copies = true
+					}
+				case *ssa.Store:
+					if ia, ok := x.Addr.(*ssa.IndexAddr); ok && x.Val == ssa.Value(h.Params[1]) {
+						if cst, ok := ia.Index.(*ssa.Const); ok && cst.Value != nil && cst.Value.String() == "0" {
+							front = true
+						}
+					}
+				case *ssa.Return:
+					if len(x.Results) == 1 {
+						if m := addMode(x.Results[0], func(y ssa.Value) bool { return y == ssa.Value(h.Params[0]) }); m == "append" {
+							back = true
+						} else if m == "prepend" {
+							front, copies = true, true
+						}
+					}
+				}
+			}
+		}
+		switch {
+		case copies && front:
+			return "prepend" // grown by one, shifted up, the element stored at index 0
+		case back && !front && !copies:
+			return "append"
+		}
+		return ""
+	}
+	judge := func(f *ssa.Function, at ssa.Instruction, dir, mode string) {
+		n++
+		asc := dir == "forward" && mode == "append" || dir == "reverse" && mode == "prepend"
+		if os.Getenv("MCDEBUG") == "order" {
+			fmt.Fprintln(os.Stderr, "order", fn(f), dir, mode)
+		}
+		r.Require(asc, "A11.listing-order", fn(f), pos(c, at),
+			"a collected list is in ascending key order: a forward walk appends, a reverse walk (the capped exports) puts each element in front",
+			"the store is walked "+dir+" and each element is added by "+mode)
+	}
+	for _, f := range w.Funcs {
+		if w.IsGenerated(f) || ir.IsFixture(f) || ir.ModuleOf(f) == "" || f.Parent() != nil || strings.Contains(fn(f), "/simulation") || strings.Contains(fn(f), "/client") {
+			continue
+		}
+		for _, b := range f.Blocks {
+			for _, in := range b.Instrs {
+				call, ok := in.(ssa.CallInstruction)
+				if !ok {
+					continue
+				}
+				g := call.Common().StaticCallee()
+				if g == nil || len(g.Blocks) == 0 {
+					continue
+				}
+				for _, a := range call.Common().Args {
+					mc, ok := stripIface(a).(*ssa.MakeClosure)
+					if !ok {
+						continue
+					}
+					cb, ok := mc.Fn.(*ssa.Function)
+					if !ok || cb.Parent() != f {
+						continue
+					}
+					dir := iterDir(g)
+					if dir == "" {
+						continue
+					}
+					for _, cbb := range cb.Blocks {
+						for _, ci := range cbb.Instrs {
+							st, ok := ci.(*ssa.Store)
+							if !ok {
+								continue
+							}
+							fv, ok := st.Addr.(*ssa.FreeVar)
+							if !ok {
+								continue
+							}
+							if _, isSlice := ptrElem(fv.Type()).Underlying().(*types.Slice); !isSlice {
+								continue
+							}
+							isList := func(v ssa.Value) bool {
+								u, ok := v.(*ssa.UnOp)
+								return ok && u.X == ssa.Value(fv)
+							}
+							if mode := addMode(st.Val, isList); mode != "" {
+								// what the enclosing function does with the list afterwards: turned round in place (then a reverse walk that
+								// appends is ascending after all), or sorted (then the walk does not decide the order)
+								var listVar ssa.Value
+								for k, cfv := range cb.FreeVars {
+									if cfv == fv && k < len(mc.Bindings) {
+										listVar = mc.Bindings[k]
+									}
+								}
+								switch laterReordered(f, listVar) {
+								case "sorted":
+									continue
+								case "reversed":
+									if mode == "append" {
+										mode = "prepend"
+									} else {
+										mode = "append"
+									}
+								}
+								judge(f, ci, dir, mode)
+							}
+						}
+					}
+				}
+			}
+		}
+		// a loop over an iterator opened in the function itself
+		dir := ""
+		for _, e := range w.EffectsOf(f) {
+			if e.Kind == "StoreIter" && e.Site.Parent() == f {
+				d := "forward"
+				if strings.Contains(e.Method, "Reverse") {
+					d = "reverse"
+				}
+				if dir != "" && dir != d {
+					dir = "mixed"
+				} else if dir == "" {
+					dir = d
+				}
+			}
+		}
+		if dir == "" || dir == "mixed" {
+			continue
+		}
+		for _, b := range f.Blocks {
+			for _, in := range b.Instrs {
+				switch x := in.(type) {
+				case *ssa.Phi:
+					if _, isSlice := x.Type().Underlying().(*types.Slice); !isSlice || loopBody(b) == nil {
+						continue
+					}
+					for _, e := range x.Edges {
+						if mode := addMode(e, func(v ssa.Value) bool { return v == ssa.Value(x) }); mode != "" {
+							judge(f, x, dir, mode)
+						}
+					}
+				case *ssa.Store:
+					al, ok := x.Addr.(*ssa.Alloc)
+					if !ok {
+						continue
+					}
+					if _, isSlice := ptrElem(al.Type()).Underlying().(*types.Slice); !isSlice || ir.EnclosingLoopHeader(f, x) == nil {
+						continue
+					}
+					isList := func(v ssa.Value) bool {
+						u, ok := v.(*ssa.UnOp)
+						return ok && u.X == ssa.Value(al)
+					}
+					if mode := addMode(x.Val, isList); mode != "" {
+						judge(f, x, dir, mode)
+					}
+				}
+			}
+		}
+	}
+	return n
+}
+
+// resliceOf: v is a re-slicing `x[:]`/`x[a:b]` of a value isList accepts.
+func resliceOf(v ssa.Value, isList func(ssa.Value) bool) bool {
+	if s, ok := v.(*ssa.Slice); ok {
+		return isList(s.X)
+	}
+	return false
+}
+
+// laterReordered: what f does to the list kept in the variable v after collecting it: "reversed" (slices.Reverse, or a loop
+// that swaps the elements at two indices of it), "sorted" (handed to package sort / slices.Sort*), or "".
+func laterReordered(f *ssa.Function, v ssa.Value) string {
+	if v == nil {
+		return ""
+	}
+	isList := func(x ssa.Value) bool {
+		u, ok := x.(*ssa.UnOp)
+		return ok && u.X == v
+	}
+	res := ""
+	for _, b := range f.Blocks {
+		swaps := 0
+		for _, in := range b.Instrs {
+			switch x := in.(type) {
+			case *ssa.Call:
+				sc := x.Common().StaticCallee()
+				if sc == nil || sc.Pkg == nil {
+					continue
+				}
+				uses := false
+				for _, a := range x.Common().Args {
+					if isList(a) || isList(stripIface(a)) {
+						uses = true
+					}
+					if mi, ok := a.(*ssa.MakeInterface); ok && isList(mi.X) {
+						uses = true
+					}
+				}
+				if !uses {
+					continue
+				}
+				switch sc.Pkg.Pkg.Path() {
+				case "sort":
+					res = "sorted"
+				case "slices":
+					if sc.Name() == "Reverse" {
+						if res == "" {
+							res = "reversed"
+						}
+					} else if strings.HasPrefix(sc.Name(), "Sort") {
+						res = "sorted"
+					}
+				}
+			case *ssa.Store:
+				ia, ok := x.Addr.(*ssa.IndexAddr)
+				if !ok || !isList(ia.X) {
+					continue
+				}
+				if ld, ok := x.Val.(*ssa.UnOp); ok {
+					if ia2, ok := ld.X.(*ssa.IndexAddr); ok && isList(ia2.X) && ia2.Index != ia.Index {
+						swaps++
+					}
+				}
+			}
+		}
+		if swaps >= 2 && loopBody(b) != nil || swaps >= 2 && ir.EnclosingLoopHeader(f, b.Instrs[0]) != nil {
+			if res == "" {
+				res = "reversed"
+			}
+		}
+	}
+	return res
 }
